@@ -1136,20 +1136,24 @@ func (app *App) init() *App {
 // the app, which if not set is the DefaultErrorHandler.
 func (app *App) ErrorHandler(ctx Ctx, err error) error {
 	var (
-		mountedErrHandler  ErrorHandler
-		mountedPrefixParts int
+		mountedErrHandler ErrorHandler
+		mountedPrefix     string
 	)
 
+	path := ctx.Path()
 	for prefix, subApp := range app.mountFields.appList {
-		if prefix != "" && strings.HasPrefix(ctx.Path(), prefix) {
-			parts := len(strings.Split(prefix, "/"))
-			if mountedPrefixParts <= parts {
-				if subApp.configured.ErrorHandler != nil {
-					mountedErrHandler = subApp.config.ErrorHandler
-				}
-
-				mountedPrefixParts = parts
-			}
+		if prefix == "" || subApp.configured.ErrorHandler == nil {
+			continue
+		}
+		// The mount prefix has to contain the request path on a segment boundary
+		trimmed := utils.TrimRight(prefix, '/')
+		if !strings.HasPrefix(path, trimmed) || (len(path) > len(trimmed) && path[len(trimmed)] != '/') {
+			continue
+		}
+		// The innermost (longest) prefix wins, independent of the map iteration order
+		if mountedErrHandler == nil || len(prefix) > len(mountedPrefix) {
+			mountedErrHandler = subApp.config.ErrorHandler
+			mountedPrefix = prefix
 		}
 	}
 
